@@ -4,6 +4,7 @@ import (
 	"encoding/json"
 	"fmt"
 	"math"
+	"path/filepath"
 	"reflect"
 	"regexp"
 	"sort"
@@ -582,57 +583,16 @@ var c02Hostile = []string{
 
 func hostileIRI(h string) string { return "https://example.com/p/" + h }
 
-func TestC02(t *testing.T) {
-	r := ev.Open(t, "C02")
-	defer r.Close(t)
-	r.Rule("cells: the benign single-cell values of C01 (every type x field x shape) and one everything-set value per type through every MarshalJSON method and package MarshalJSON; hostile: every string-typed " +
-		"position (ids, IRIs in item and list positions, href, rel, owner, key id, type, formerType, media types, language tags, hrefLang, units, key material, natural-language text single and map) x 40 hostile " +
-		"constants (quotes, backslashes, control characters, invalid UTF-8, JSON fragments, injection payloads); random: values with several hostile strings. Oracle: independent tokenizer (one valid JSON value, " +
-		"no repeated member names) + accounting walk of value and tree together by the jsonld tags (term, JSON kind, RFC 3339, xsd:duration by an independent parser, every string decodes to exactly the bytes " +
-		"held, no undeclared or unaccounted member). non-trivial = the value holds a string that needs escaping or a non-string kind; distinct by writer + canonical dump")
-	r.Assume("for byte strings that are not valid UTF-8 only validity, no duplicate member and no undeclared member are asserted (exact decoding is impossible in JSON)")
+// c02Position is one string-typed position of the vocabulary: mk builds a value holding h there.
+type c02Position struct {
+	name string
+	mk   func(h string) interface{}
+}
 
-	if r.WantLayer("cells", true) {
-		cells, _ := vocab.SingleCells(false)
-		done := 0
-		for _, w := range []string{"pkg", "method"} {
-			for _, c := range cells {
-				id := w + " " + c.ID
-				if !r.WantCell(id) {
-					continue
-				}
-				done++
-				ds, _ := c02Check(w, c.Value)
-				nonString := c.Field.Kind != vocab.KNLV && c.Field.Kind != vocab.KString && c.Field.Kind != vocab.KMime
-				r.Case(id+vocab.Dump(c.Value), nonString, "cells writer="+w, "cells kind="+string(c.Field.Kind))
-				if done%211 == 0 {
-					r.Sample(id, map[string]interface{}{"layer": "cells", "writer": w, "cell": c.ID, "value": vocab.Dump(c.Value)})
-				}
-				reportAll(r, "cells", id, ds, vocab.Dump(c.Value))
-			}
-			for _, st := range vocab.StructTypes {
-				id := w + " everything " + st.Name()
-				if !r.WantCell(id) {
-					continue
-				}
-				done++
-				x := vocab.Everything(st, false)
-				ds, _ := c02Check(w, x)
-				r.Case(id, true, "cells everything")
-				reportAll(r, "cells", id, ds, vocab.Dump(x))
-			}
-		}
-		r.Cells(2*(len(cells)+len(vocab.StructTypes)), done)
-		r.Exhaustive("cells", !r.Replaying())
-	}
-
-	// ---- hostile enumeration: position x constant
-	type position struct {
-		name string
-		mk   func(h string) interface{}
-	}
+// c02Positions enumerates the string-typed positions (hostile layer, FuzzC02).
+func c02Positions() []c02Position {
 	id := ap.IRI("https://example.com/top")
-	positions := []position{
+	return []c02Position{
 		{"Object.ID", func(h string) interface{} { return &ap.Object{ID: ap.IRI(hostileIRI(h)), Type: ap.NoteType} }},
 		{"Object.ID-raw", func(h string) interface{} { return &ap.Object{ID: ap.IRI(h), Type: ap.NoteType} }},
 		{"nested.ID", func(h string) interface{} {
@@ -723,6 +683,55 @@ func TestC02(t *testing.T) {
 		}},
 		{"Endpoints", func(h string) interface{} { return ap.Endpoints{SharedInbox: ap.IRI(hostileIRI(h))} }},
 	}
+}
+
+func TestC02(t *testing.T) {
+	r := ev.Open(t, "C02")
+	defer r.Close(t)
+	r.Rule("cells: the benign single-cell values of C01 (every type x field x shape) and one everything-set value per type through every MarshalJSON method and package MarshalJSON; hostile: every string-typed " +
+		"position (ids, IRIs in item and list positions, href, rel, owner, key id, type, formerType, media types, language tags, hrefLang, units, key material, natural-language text single and map) x 40 hostile " +
+		"constants (quotes, backslashes, control characters, invalid UTF-8, JSON fragments, injection payloads); random: values with several hostile strings. Oracle: independent tokenizer (one valid JSON value, " +
+		"no repeated member names) + accounting walk of value and tree together by the jsonld tags (term, JSON kind, RFC 3339, xsd:duration by an independent parser, every string decodes to exactly the bytes " +
+		"held, no undeclared or unaccounted member). non-trivial = the value holds a string that needs escaping or a non-string kind; distinct by writer + canonical dump")
+	r.Assume("for byte strings that are not valid UTF-8 only validity, no duplicate member and no undeclared member are asserted (exact decoding is impossible in JSON)")
+
+	if r.WantLayer("cells", true) {
+		cells, _ := vocab.SingleCells(false)
+		done := 0
+		for _, w := range []string{"pkg", "method"} {
+			for _, c := range cells {
+				id := w + " " + c.ID
+				if !r.WantCell(id) {
+					continue
+				}
+				done++
+				ds, _ := c02Check(w, c.Value)
+				nonString := c.Field.Kind != vocab.KNLV && c.Field.Kind != vocab.KString && c.Field.Kind != vocab.KMime
+				r.Case(id+vocab.Dump(c.Value), nonString, "cells writer="+w, "cells kind="+string(c.Field.Kind))
+				if done%211 == 0 {
+					r.Sample(id, map[string]interface{}{"layer": "cells", "writer": w, "cell": c.ID, "value": vocab.Dump(c.Value)})
+				}
+				reportAll(r, "cells", id, ds, vocab.Dump(c.Value))
+			}
+			for _, st := range vocab.StructTypes {
+				id := w + " everything " + st.Name()
+				if !r.WantCell(id) {
+					continue
+				}
+				done++
+				x := vocab.Everything(st, false)
+				ds, _ := c02Check(w, x)
+				r.Case(id, true, "cells everything")
+				reportAll(r, "cells", id, ds, vocab.Dump(x))
+			}
+		}
+		r.Cells(2*(len(cells)+len(vocab.StructTypes)), done)
+		r.Exhaustive("cells", !r.Replaying())
+	}
+
+	// ---- hostile enumeration: position x constant
+	positions := c02Positions()
+	id := ap.IRI("https://example.com/top")
 	if r.WantLayer("hostile", true) {
 		total, done := 0, 0
 		for _, p := range positions {
@@ -878,6 +887,24 @@ func TestC02(t *testing.T) {
 		r.Exhaustive("empties", !r.Replaying())
 	}
 
+	// ---- saved fuzz inputs (replays of FuzzC02 crashers)
+	if r.WantLayer("corpus", true) {
+		n := 0
+		for _, f := range fuzzFiles("FuzzC02", "C02") {
+			args, ok := readFuzzArgs(f)
+			if !ok || len(args) != 2 || !r.WantCell(filepath.Base(f)) {
+				continue
+			}
+			n++
+			pos, _ := args[0].(uint64)
+			h, _ := args[1].(string)
+			ds := c02FuzzOne(uint8(pos), h)
+			r.Case("corpus "+filepath.Base(f), true, "corpus")
+			reportAll(r, "corpus", filepath.Base(f), ds, map[string]interface{}{"position": pos, "string": h})
+		}
+		r.Cells(n, n)
+	}
+
 	hostileG := rapid.OneOf(rapid.SampledFrom(c02Hostile), rapid.StringOfN(rapid.RuneFrom([]rune("\"\\/bfnrtu0123456789{}[]:, \x00\x01\x1f\x7f\u2028\u2029😀aé")), 1, 20, -1), rapid.String(),
 		rapid.Map(rapid.SliceOfN(rapid.Byte(), 1, 12), func(b []byte) string { return string(b) }))
 	r.Rapid(t, "random", r.Pick(3000, 20000), func(t *rapid.T) {
@@ -911,5 +938,43 @@ func TestC02(t *testing.T) {
 		r.Case(w+" "+dump, cls != "benign" || vocab.FeaturesOf(x).SetProps > 0, "random chars="+cls, "random type="+gt)
 		r.Sample(dump, map[string]interface{}{"layer": "random", "writer": w, "value": dump})
 		failUnknown(r, t, "random", ds, map[string]interface{}{"writer": w, "value": dump, "output": string(out)})
+	})
+}
+
+// c02FuzzOne places one string at one position and runs the output oracle through the writers that apply.
+func c02FuzzOne(pos uint8, h string) (ds []keyed) {
+	ps := c02Positions()
+	p := ps[int(pos)%len(ps)]
+	for _, w := range []string{"method", "pkg"} {
+		x := p.mk(h)
+		if _, isItem := x.(ap.Item); !isItem && w == "pkg" {
+			continue
+		}
+		if _, ok := x.(json.Marshaler); !ok {
+			continue
+		}
+		d, _ := c02Check(w, x)
+		ds = append(ds, d...)
+	}
+	return ds
+}
+
+// FuzzC02 is the native coverage-guided target (thorough tier): a selector picks the string-typed position, the string is the input.
+func FuzzC02(f *testing.F) {
+	for i := range c02Positions() {
+		f.Add(uint8(i), c02Hostile[(i*5)%len(c02Hostile)])
+		f.Add(uint8(i), c02Hostile[(i*5+3)%len(c02Hostile)])
+	}
+	known := ev.LoadFindings("C02")
+	f.Fuzz(func(t *testing.T, pos uint8, h string) {
+		if len(h) > 1<<12 {
+			return
+		}
+		for _, d := range c02FuzzOne(pos, h) {
+			if known.Peek(d.Key) {
+				continue
+			}
+			t.Fatalf("VIOLATION-KEY property=C02 key=%q detail=%q", d.Key, d.Detail)
+		}
 	})
 }
